@@ -777,9 +777,11 @@ class WorkerPool:
 
             # Create progress bar handler, which receives progress updates from the workers and updates the progress bar
             # accordingly
-            with ProgressBarHandler(self.pool_params, self.map_params, progress_bar, progress_bar_options,
-                                    progress_bar_style, self._worker_comms,
-                                    self._worker_insights) as self._progress_bar_handler:
+            # The handler is stored before it's started, such that it can be told to stop when starting it is interrupted
+            self._progress_bar_handler = ProgressBarHandler(self.pool_params, self.map_params, progress_bar,
+                                                            progress_bar_options, progress_bar_style,
+                                                            self._worker_comms, self._worker_insights)
+            with self._progress_bar_handler:
                 try:
                     # Process all args in the iterable
                     n_active = 0
@@ -866,6 +868,9 @@ class WorkerPool:
             if imap_iterator is not None:
                 imap_iterator.remove_from_cache()
 
+            # When starting or stopping the progress bar handler got interrupted, its thread can still be running
+            if self._progress_bar_handler is not None and self._progress_bar_handler.thread is not None:
+                self._progress_bar_handler.__exit__(KeyboardInterrupt)
             self._progress_bar_handler = None
             self._map_running = False
             self._worker_comms.reset_progress()
@@ -1071,6 +1076,9 @@ class WorkerPool:
         send a sigkill.
         """
         if not self._workers:
+            # The workers are gone already. However, when stopping and joining them was interrupted half-way, the handler
+            # threads can still be around
+            self._stop_handler_threads()
             return
 
         # Set exception thrown so workers know to stop fetching new tasks
@@ -1085,7 +1093,8 @@ class WorkerPool:
 
         # When we're working with threads we have to wait for them to join. We can't kill threads in Python
         if self.pool_params.start_method == 'threading':
-            threads = self._workers
+            # When starting the workers was interrupted not all of them exist
+            threads = [worker for worker in self._workers if worker is not None]
         else:
             # Create cleanup threads such that processes can get killed simultaneously, which can save quite some time
             threads = []
